@@ -2342,7 +2342,9 @@ class DiskObjectStore(PackBasedObjectStore):
             # validates ingested objects this way via PackInflater; without
             # the same check DiskObjectStore was strictly weaker.
             for _obj in PackInflater.for_pack_data(
-                final_pack.data, resolve_ext_ref=self.get_raw
+                final_pack.data,
+                resolve_ext_ref=self.get_raw,
+                reject_delta_cycles=True,
             ):
                 pass
         except BaseException:
@@ -2407,6 +2409,7 @@ class DiskObjectStore(PackBasedObjectStore):
                     f,
                     self.object_format.hash_func,
                     resolve_ext_ref=self.get_raw,
+                    reject_delta_cycles=True,
                 )
                 copier = PackStreamCopier(
                     self.object_format.hash_func,
@@ -2483,6 +2486,7 @@ class DiskObjectStore(PackBasedObjectStore):
                     indexer = PackIndexer.for_pack_data(
                         pd,
                         resolve_ext_ref=self.get_raw,
+                        reject_delta_cycles=True,
                     )
                     entries, ext_refs = self._index_pack(indexer, len(pd))  # type: ignore[arg-type]
                 return self._complete_pack(f, path, entries, ext_refs)
@@ -3069,7 +3073,11 @@ class MemoryObjectStore(PackCapableObjectStore):
                     # entry may still fail (missing delta base, bad delta,
                     # object that does not parse), and a failed commit must
                     # not leave the objects that preceded it in the store.
-                    objs = list(PackInflater.for_pack_data(p, self.get_raw))
+                    objs = list(
+                        PackInflater.for_pack_data(
+                            p, self.get_raw, reject_delta_cycles=True
+                        )
+                    )
                 finally:
                     p.close()
                     f.close()
